@@ -43,19 +43,22 @@ def templates(only=None):
     return out
 
 
-def lit(t, v):
+def lit(t, v, alt=False):
     if t == "felt252":
         v = v % P
+        if alt and v != 0:
+            # the same field element written as a literal close to -P (stored signed form v - P)
+            return f"({v - P})"
         if v > P // 2:
             return f"({v - P})"
         return f"({v})"
     return f"({v}_{t})" if v >= 0 else f"(-{-v}_{t})"
 
 
-def instantiate(body, params, vals):
+def instantiate(body, params, vals, alt=False):
     s = body
     for (n, t), v in zip(params, vals):
-        s = re.sub(rf"\b{n}\b", lit(t, v), s)
+        s = re.sub(rf"\b{n}\b", lit(t, v, alt), s)
     return s
 
 
@@ -180,20 +183,24 @@ def main(args):
         temps = [e for e in temps if any(e.name.endswith("_" + k) or f"_{k}_to_" in e.name
                                          for k in keep)]
     max_per_case = 10 if tier == "thorough" else 5
-    items = []  # (entry, operands, case index, expected)
+    items = []  # (entry, operands, case index, expected, alternative literal rendering)
     for e in temps:
+        has_felt = any(t == "felt252" for _, t in e.params)
         for m, ci, exp in pick_points(e, max_per_case):
             if exp[0] == "Pred":
                 continue
-            items.append((e, m, ci, exp))
+            items.append((e, m, ci, exp, False))
+            if has_felt:
+                # felt252 operands also written in their other signed form (v - P)
+                items.append((e, m, ci, exp, True))
     header = matrix.HEADER
     # ---- leg 1: const items
     n_hdr = header.count("\n")
     src1 = os.path.join(work, "c07_consts.cairo")
     with open(src1, "w") as f:
         f.write(header)
-        for k, (e, m, ci, exp) in enumerate(items):
-            f.write(f"const K{k}: {e.ret} = {instantiate(e.body, e.params, m)};\n")
+        for k, (e, m, ci, exp, alt) in enumerate(items):
+            f.write(f"const K{k}: {e.ret} = {instantiate(e.body, e.params, m, alt)};\n")
     ok1, errlines, stderr1 = compile_errors(src1, {"allow_warnings": True})
     failing = {ln - n_hdr - 1 for ln in errlines}
     violations, notes = [], []
@@ -201,9 +208,9 @@ def main(args):
     regions = set()
 
     def report(k, what, observed):
-        e, m, ci, exp = items[k]
+        e, m, ci, exp, alt = items[k]
         payload = {"property": "C07", "template": e.name, "operands": [str(x) for x in m],
-                   "expression": instantiate(e.body, e.params, m), "type": e.ret,
+                   "expression": instantiate(e.body, e.params, m, alt), "type": e.ret,
                    "expected": exp, "observed": observed, "what": what,
                    "how_to_replay": "compile `const C: <type> = <expression>;` / `fn f() -> <type> "
                                     "{ <expression> }` with cairo-run and compare"}
@@ -217,7 +224,7 @@ def main(args):
         else:
             violations.append(path)
 
-    for k, (e, m, ci, exp) in enumerate(items):
+    for k, (e, m, ci, exp, alt) in enumerate(items):
         evaluations += 1
         regions.add((e.name, ci))
         if exp[0] == "Panic" and k not in failing:
@@ -232,14 +239,14 @@ def main(args):
     with open(src2, "w") as f:
         f.write(header)
         for k in ok_items:
-            e, m, ci, exp = items[k]
-            f.write(f"const K{k}: {e.ret} = {instantiate(e.body, e.params, m)};\n")
+            e, m, ci, exp, alt = items[k]
+            f.write(f"const K{k}: {e.ret} = {instantiate(e.body, e.params, m, alt)};\n")
             f.write(f"fn k{k}() -> {e.ret} {{ K{k} }}\n")
     src3 = os.path.join(work, "c07_fold.cairo")
     with open(src3, "w") as f:
         f.write(header)
-        for k, (e, m, ci, exp) in enumerate(items):
-            f.write(f"fn f{k}() -> {e.ret} {{ {instantiate(e.body, e.params, m)} }}\n")
+        for k, (e, m, ci, exp, alt) in enumerate(items):
+            f.write(f"fn f{k}() -> {e.ret} {{ {instantiate(e.body, e.params, m, alt)} }}\n")
     checked_values = 0
     for src, cfg, names, leg in (
             (src2, {"allow_warnings": True}, [(k, f"k{k}") for k in ok_items], "const item value"),
@@ -254,7 +261,7 @@ def main(args):
         rp = common.Replayer(src, cfg)
         stem = os.path.splitext(os.path.basename(src))[0]
         for k, fn in names:
-            e, m, ci, exp = items[k]
+            e, m, ci, exp, alt = items[k]
             resp = rp.run(f"{stem}::{stem}::{fn}", [])
             evaluations += 1
             checked_values += 1
@@ -271,8 +278,8 @@ def main(args):
                 "values of each operand, equal / adjacent operands, interior points); "
                 "non-trivial and distinct = distinct (template, specification region) pairs covered",
         "samples": [{"template": e.name, "operands": [str(x) for x in m], "expected": exp,
-                     "expression": instantiate(e.body, e.params, m)}
-                    for e, m, ci, exp in items[:3] + items[len(items) // 2:len(items) // 2 + 2]],
+                     "expression": instantiate(e.body, e.params, m, alt)}
+                    for e, m, ci, exp, alt in items[:3] + items[len(items) // 2:len(items) // 2 + 2]],
         "templates": len(temps), "operand_tuples": len(items), "values_checked": checked_values,
         "const_items_rejected": len(failing), "notes": notes,
         "explanation": "compile-time side is concrete; the run-time side is decided for all "
